@@ -4,7 +4,7 @@
 #  (c) the demonstration passes on the unmodified tree and fails with the change.  Log -> /verif/seeded/<id>/confirm.log
 id=$1; S=/verif/seeded/$id; W=/tmp/confirm
 [ -d $W ] || git -C /repo worktree add --detach $W HEAD >/dev/null 2>&1
-cd $W && git checkout -- . && git clean -fdq -e _build
+cd $W && git checkout -- . && git clean -fdq -e _build && git checkout -q --detach $(git -C /repo rev-parse HEAD)
 {
 echo "== seed $id  $(date -u +%FT%TZ)  repo HEAD $(git -C /repo rev-parse --short HEAD)"
 git apply --check $S/patch.diff && git apply $S/patch.diff && echo "patch applied" || { echo "PATCH DOES NOT APPLY"; exit 1; }
